@@ -35,7 +35,8 @@ Clauses(ev) ==
     [] ev.ev = "Arith" ->
          LET a == ToInt(AddrOf(ev))
              na == ArithAddr(ev.op, a, ev.n)
-         IN IF ~SmallInt(AddrOf(ev)) \/ na < 0 \/ na > 1000000 THEN {"SKIP:domain"}
+         \* TLC integers are 32 bit: the operand is bounded before the operator (up to << 16) is applied
+         IN IF ~SmallInt(AddrOf(ev)) \/ a > 30000 \/ na < 0 \/ na > 1000000 THEN {"SKIP:domain"}
             ELSE LET d == Deref(FromInt(na), FieldType(ev).target, ev.mode, ev.input, hasStream, ev.consts) IN
                  (IF ev.obs.sameclass /\ ev.obs.addr = FromInt(na) THEN {} ELSE {"arith"})
                  \cup (IF ev.obs.status = d.status /\ (d.status = "ok" => ev.obs.v = d.v) THEN {} ELSE {"arith-deref"})
